@@ -469,7 +469,7 @@ impl<O: PlainOracle> PlainSys<O> {
                 }
             }
         }
-        Step {
+        Step { strict: false,
             next: if expand { Some(PState { sc, m: m2 }) } else { None },
             obs: match out[0] {
                 Some(t) => h64(&t),
@@ -510,7 +510,7 @@ impl<O: PlainOracle> PlainSys<O> {
                         v.push(self.vio("representation-matters", "non-contributing", || format!("({:#04X},{},{}): {}", st, d1, d2, d)));
                     }
                 }
-                Step { next: Some(PState { sc, m: s.m.clone() }), obs: 0, violations: v }
+                Step { strict: true, next: Some(PState { sc, m: s.m.clone() }), obs: 0, violations: v }
             }
             PAct::Transparent(i) => {
                 let (st, d1, d2) = self.noncontrib[*i as usize];
@@ -534,12 +534,12 @@ impl<O: PlainOracle> PlainSys<O> {
                         v.push(self.vio("representation-matters", "non-contributing", || format!("({:#04X},{},{}): {}", st, d1, d2, d)));
                     }
                 }
-                Step { next: None, obs: 0, violations: v }
+                Step { strict: false, next: None, obs: 0, violations: v }
             }
             PAct::Reset => {
                 let mut sc = s.sc;
                 sc.reset_all();
-                Step {
+                Step { strict: true,
                     next: Some(PState { sc, m: self.oracle.init() }),
                     obs: 0,
                     violations: Vec::new(),
@@ -565,7 +565,7 @@ impl<O: PlainOracle> PlainSys<O> {
                         v.push(self.vio("reset-behaves-like-new", "reset-storm", || format!("after {} resets{}: {}", n, if traffic { " (with a note-on on another channel before each)" } else { "" }, d)));
                     }
                 }
-                Step { next: Some(PState { sc, m: self.oracle.init() }), obs: 0, violations: v }
+                Step { strict: true, next: Some(PState { sc, m: self.oracle.init() }), obs: 0, violations: v }
             }
             PAct::TouchAll => {
                 let mut sc = s.sc;
@@ -579,7 +579,7 @@ impl<O: PlainOracle> PlainSys<O> {
                         }
                     }
                 }
-                Step { next: Some(PState { sc, m: s.m.clone() }), obs: 0, violations: v }
+                Step { strict: true, next: Some(PState { sc, m: s.m.clone() }), obs: 0, violations: v }
             }
             PAct::ResetProbe => {
                 let mut v = Vec::new();
@@ -599,7 +599,7 @@ impl<O: PlainOracle> PlainSys<O> {
                         v.push(self.vio("reset-behaves-like-new", "reset", || d));
                     }
                 }
-                Step { next: None, obs: 0, violations: v }
+                Step { strict: false, next: None, obs: 0, violations: v }
             }
         }
     }
